@@ -240,6 +240,7 @@ package storage
 //@   ensures[stored] result ==> has(lru.cache, key) && centry(lru.cache[key]).val == val && lruAt(lru, 0) == lru.cache[key]
 //@   ensures[hit] old(has(lru.cache, key)) ==> result && lruLen(lru) == old(lruLen(lru)) && lru.cache[key] == old(lru.cache[key]) &&
 //@              (forall k any :: has(lru.cache, k) == old(has(lru.cache, k)))
+//@   ensures[hit.map; C16] old(has(lru.cache, key)) ==> forall k any :: lru.cache[k] == old(lru.cache[k])
 //@   ensures[hit.vals] old(has(lru.cache, key)) ==> forall c *cacheEntry :: c != centry(lru.cache[key]) ==> c.val == old(c.val)
 //@   ensures[room] !old(has(lru.cache, key)) && old(lruLen(lru)) != lru.maxNodes ==> result && lruLen(lru) == old(lruLen(lru)) + 1 &&
 //@              (forall k any :: old(has(lru.cache, k)) ==> has(lru.cache, k) && lru.cache[k] == old(lru.cache[k])) &&
@@ -277,6 +278,9 @@ package storage
 //@   ensures[stored] result == nil ==> has(f.cache.cache, key) && centry(f.cache.cache[key]).val == val
 //@   ensures[neverdirty] forall k any :: old(has(f.cache.cache, k)) && old(centry(f.cache.cache[k]).val.dirty) ==> has(f.cache.cache, k)
 //@   ensures[capacity] old(lruLen(f.cache)) <= f.cache.maxNodes ==> lruLen(f.cache) <= f.cache.maxNodes
+//@   ensures[hit.kept; C16] old(has(f.cache.cache, key)) ==> result == nil &&
+//@              (forall k any :: has(f.cache.cache, k) == old(has(f.cache.cache, k)) && f.cache.cache[k] == old(f.cache.cache[k])) &&
+//@              (forall c *cacheEntry :: c != centry(f.cache.cache[key]) ==> c.val == old(c.val))
 
 // ---- file store: counters, allocation, cache (C01 C02 C11 C16) ----
 
@@ -1052,12 +1056,15 @@ package storage
 //@   props C04 C12 C13 C16
 //@   requires fsExcl(f) && cacheOK(f) && node != nil
 //@   requires[enc] encodable(node) && 4096 <= node.fileOffset && node.fileOffset <= 9223372036854771711
+//@   requires[cached] cached(f, node)
 //@   modifies listLen(f.cache.list), listAt(f.cache.list), listPos, listOf, mapof(f.cache.cache), all(cacheEntry.val), storeState, written(node), fdata(f.file), fsize(f.file)
 //@   ensures cacheOK(f)
 //@   ensures_assumed[ghost.written] result == nil ==> written(node)
 //@   ensures_assumed[ghost.written.err] result != nil ==> written(node) == old(written(node))
 //@   ensures[image; C12 C16] result == nil ==> (node.isLeaf && old(leafIs(node)) ==> fLeafImage(f.file, node.fileOffset)) && (!node.isLeaf && old(intIs(node)) ==> fIntImage(f.file, node.fileOffset))
 //@   ensures[kind; C12 C16] result == nil ==> fdata(f.file, node.fileOffset) == (node.isLeaf ? 1 : 0)
+//@   ensures[cache.kept; C04 C16] result == nil ==> (forall k any :: has(f.cache.cache, k) == old(has(f.cache.cache, k)) && f.cache.cache[k] == old(f.cache.cache[k])) &&
+//@              (forall c *cacheEntry :: c.val == old(c.val))
 //@   ensures[others.kept; C12 C16] forall k int :: (k < node.fileOffset || k >= node.fileOffset + 4096) ==> fdata(f.file,k) == old(fdata(f.file,k))
 
 //@ func (f *fileStore) save() error
@@ -1073,14 +1080,18 @@ package storage
 //@   reveal lruInv
 //@   requires txn == 0 && cacheOK(f)
 //@   assumepre (*fileStore).update.enc A-CACHE: every page in the cache is a node the codec can represent, at an offset behind the header page and below 2^63 (pages enter the cache from fetch - trusted nodeOK - or freshly created, and every verified mutator re-establishes nodeOK for the pages it touches; the cache-wide statement is not proved)
+//@   assumepre (*fileStore).update.cached A-CACHE.key: every page in the cache is stored under its own file offset
 //@   modifies txn, all(btreeNode.dirty), @cacheState, storeState, written, fdata(f.file), fsize(f.file)
 //@   ensures[unlock; C13] txn == 0
 //@   ensures[cache] cacheOK(f)
 //@   ensures[clean; C04 C16] forall n *btreeNode :: written(n) && !old(written(n)) ==> !n.dirty
 //@   ensures[header.saved; C04] result == nil ==> headerIs(f)
+//@   ensures[all.clean; C02 C04 C16] result == nil ==> forall k any :: has(f.cache.cache, k) ==> !centry(f.cache.cache[k]).val.dirty
 //@   ensures_assumed[ghost.fail] result != nil ==> opFailed(f)
 //@   loop 1 invariant txn == 2 && cacheOK(f)
 //@   loop 1 invariant [clean; C04 C16] forall n *btreeNode :: written(n) && !old(written(n)) ==> !n.dirty
+//@   loop 1 invariant [visited.clean; C02 C04 C16] forall k any :: rangevisited(k) && has(f.cache.cache, k) ==> !centry(f.cache.cache[k]).val.dirty
+//@   loop 1 invariant [cache.kept; C02 C04 C16] forall k any :: has(f.cache.cache, k) == old(has(f.cache.cache, k))
 //@   loop 1 invariant [header.last; C04] forall k int :: 0 <= k && k < 28 ==> fdata(f.file, k) == old(fdata(f.file, k))
 
 //@ func (rs *RelationService) createPage() (*btreeNode, error)
